@@ -20,6 +20,8 @@ func propC16(c *Check) {
 	c.Rule("R5", "writers of Relayer, Voters and Queue")
 	c.Rule("R6", "members are distinct: a voter record created at run time is stored only when its address is absent and after the existing voters were consulted with the new vote key (a branch on a lookup that receives the key and reads the voter records)")
 	c.freshVotersAreDistinct("R6")
+	c.Rule("R7", "an imported relayer group is well-formed: genesis import refuses a proposer that is also listed among the voters")
+	c.genesisRefusesProposerAmongVoters("R7")
 
 	nv := p.MustFn("x/relayer/keeper.msgServer.NewVoter")
 	ws := p.writeSites(nv)
@@ -150,6 +152,14 @@ func propC16(c *Check) {
 				for _, s := range p.renderedStores(f) {
 					if s.addr == "Queue.Get()#0."+q && strings.HasPrefix(s.val, "append(") {
 						apps = append(apps, s.in)
+						continue
+					}
+					// the new queue may be built in a local record (whose lists start as the stored ones) and
+					// committed with Queue.Set afterwards
+					if fa, ok := s.in.Addr.(*ssa.FieldAddr); ok && fieldName(fa.X.Type(), fa.Field) == q && namedOf(fa.X.Type()) != nil && namedOf(fa.X.Type()).Obj().Name() == "VoterQueue" {
+						if strings.HasPrefix(s.val, "append(") && strings.Contains(s.val, "Queue.Get()#0."+q) && len(p.commitPoints(f, s.in)) > 0 {
+							apps = append(apps, s.in)
+						}
 					}
 				}
 				paired := len(apps) > 0
